@@ -273,7 +273,15 @@ pub fn f32_sweep(args: &[String]) -> i32 {
             n
         }));
     }
-    let total: u64 = hs.into_iter().map(|h| h.join().unwrap()).sum();
+    let mut total: u64 = hs.into_iter().map(|h| h.join().unwrap()).sum();
+    // values that every tier visits whatever the stride: the one f32 (and its negation) whose shortest text does not survive
+    // reading through f64 and narrowing (double rounding), their neighbours, the extremes
+    for b in [0x15ae43fdu32, 0x95ae43fd, 0x15ae43fc, 0x15ae43fe, 0x0000_0001, 0x007f_ffff, 0x0080_0000, 0x7f7f_ffff, 0xff7f_ffff, 0x3f80_0000, 0x3f80_0001, 0x3dcc_cccd, 0x8000_0000, 0] {
+        let x = f32::from_bits(b);
+        let s = sonic_rs::to_string(&x).unwrap();
+        match sonic_rs::from_str::<f32>(&s) { Ok(y) if y.to_bits() == x.to_bits() => {}, _ => { let mut g = bad.lock().unwrap(); if !g.contains(&b) { g.push(b); } } }
+        total += 1;
+    }
     let bad = bad.lock().unwrap();
     println!("{}", json!({"suite":"f32-sweep","values":total,"bad": bad.iter().map(|b| format!("{:08x}", b)).collect::<Vec<_>>()}));
     0
